@@ -332,6 +332,8 @@ def _terminates(body):
     if isinstance(last, ast.Try):
         main = last.orelse if last.orelse else last.body
         return _terminates(main) and all(_terminates(h.body) for h in last.handlers)
+    if isinstance(last, ast.With):
+        return _terminates(last.body)
     return False
 
 
@@ -392,8 +394,15 @@ def _tail_convert(stmts, k):
                 new.handlers.append(nh)
             out.append(new)
             return out
+        if isinstance(st, ast.With) and _has_return([st]):
+            rest = stmts[i + 1:]
+            if rest and not _terminates([st]):
+                raise NotInlinable('return in a with block that falls through')
+            new = ast.copy_location(ast.With(items=st.items, body=_tail_convert(st.body, k)), st)
+            out.append(new)
+            return out
         if not isinstance(st, (ast.FunctionDef, ast.AsyncFunctionDef, ast.ClassDef)) and _has_return([st]):
-            raise NotInlinable('return inside a loop/with')
+            raise NotInlinable('return inside a loop')
         out.append(st)
     out.extend(k(None, stmts[-1] if stmts else None))
     return out
